@@ -149,3 +149,40 @@ def compare(sess, o):
         if o["steps"][k] != m["t"]:
             return {"step": k, "why": "state differs", "cmd": sess["cmds"][k], "impl": o["steps"][k], "model": m["t"]}
     return None
+
+
+# ---------------------------------------------------------------- generators shared by C06 C07 C16 C17
+
+TEXTS = ["hello world", "foo bar-baz qux", "a  b", "x", "ls -la /tmp", "(a.b) c", "one\\ two", "echo 'a b' \"c d\"",
+         "  lead", "trail  ", "a.b.c", "word", "if (x[1] == {y}) z"]
+HTEXTS = ["héllo wörld", "日本語 テキスト", "a\nb c\nd", "first line\n\nthird", "tab\there", "emoji 😀 end", "x\n", "é"]
+
+EM_MOVES = ["forward-char", "backward-char", "forward-word", "backward-word", "beginning-of-line", "end-of-line"]
+EM_KILLS = ["kill-line", "backward-kill-line", "kill-whole-line", "kill-word", "backward-kill-word", "kill-region"]
+EM_EDITS = ["delete-char", "backward-delete-char"] + EM_KILLS + ["yank"]
+VI_MOVES = ["vi-forward-char", "vi-backward-char", "vi-forward-word", "vi-backward-word", "vi-forward-bigword",
+            "vi-backward-bigword", "vi-end-word", "vi-end-bigword", "vi-first-print", "vi-end-of-line", "beginning-of-line"]
+
+
+def type_text(t):
+    return [("self-insert", c) for c in t]
+
+
+def start_cmds(rnd, vi, allow_hist=True):
+    """commands that put some text in the buffer, and the history to bind"""
+    if allow_hist and rnd.random() < 0.3:
+        t = rnd.choice(HTEXTS + TEXTS)
+        return [("previous-history",)], [t]
+    return type_text(rnd.choice(TEXTS)), None
+
+
+def moves(rnd, vi, n):
+    """movements; a numeric argument only before the ones that consume it (the others leave it pending)"""
+    out = []
+    for _ in range(n):
+        m = rnd.choice(VI_MOVES if vi else EM_MOVES)
+        consumes = m not in ("beginning-of-line", "end-of-line", "vi-end-of-line", "vi-first-print")
+        if consumes and rnd.random() < 0.2:
+            out.append(("vi-arg-digit", rnd.choice("23")) if vi else ("digit-argument", rnd.choice("234")))
+        out.append((m,))
+    return out
